@@ -468,10 +468,13 @@ def _substitute(prog: Program, col: Collector, refs: Refs):
         good = any(".isdisjoint(" in t and ".inputs" in t and "isinstance" in t for t in txt)
         col.check(good, f"{stop.fq}::closed terms", "substitution does not descend into terms whose inputs are disjoint from the substituted names",
                   "the stop predicate no longer tests `support.isdisjoint(x.inputs)`: substitution descends into binders whose bound name was already renamed away", stop.loc())
-        # support = all substituted names
-        sup = [n for n in walk_no_nested(sub.node) if isinstance(n, ast.Assign) and any(isinstance(t, ast.Name) and t.id == "support" for t in n.targets)]
-        ok = bool(sup) and isinstance(sup[0].value, ast.Call) and norm(sup[0].value.func) == "frozenset" and isinstance(sup[0].value.args[0], ast.GeneratorExp) \
-            and not sup[0].value.args[0].generators[0].ifs
+        # support = all substituted names: the set tested with .isdisjoint(...) inside stop is built from every pair of subs, unfiltered
+        sup_names = {n.func.value.id for n in ast.walk(stop.node) if isinstance(n, ast.Call) and isinstance(n.func, ast.Attribute) and n.func.attr == "isdisjoint"
+                     and isinstance(n.func.value, ast.Name)}
+        sup = [n for n in walk_no_nested(sub.node) if isinstance(n, ast.Assign) and any(isinstance(t, ast.Name) and t.id in sup_names for t in n.targets)]
+        ok = bool(sup) and isinstance(sup[0].value, ast.Call) and norm(sup[0].value.func) in ("frozenset", "set") and sup[0].value.args \
+            and isinstance(sup[0].value.args[0], (ast.GeneratorExp, ast.SetComp, ast.ListComp)) \
+            and not sup[0].value.args[0].generators[0].ifs and norm(sup[0].value.args[0].generators[0].iter) in (sub.positional[1], f"{sub.positional[1]}.items()")
         col.check(ok, f"{sub.fq}::support", "support is the set of all substituted names", "support is not the full set of substituted names", sub.loc())
     si = require_func(prog, "funsor.terms::SubstituteInterpretation.interpret")
     gens = [n for n in walk_no_nested(si.node) if isinstance(n, ast.GeneratorExp)]
